@@ -271,6 +271,13 @@ def checkLayout (c : Case) : CaseResult := Id.run do
         stats := ("layoutExact.cases", 1) :: ("layoutExact.nodes", ns.length) :: stats
         if central then stats := ("layoutExact.root.centralTree", 1) :: stats
         if negAsym then stats := ("layoutExact.root.flippedAsymmetric", 1) :: stats
+        -- all nodes of one size, isSymmetrical() = true, yet some node has no mirror partner (computeIsomString quirk)
+        let mn := (TreeLayout.symmetricLayout i.cfg i.convex i.root i.w i.h i.kids).nodes
+        let mirrorless := mn.any (fun a => !mn.any (fun b =>
+          if i.cfg.dir.isVertical then b.c.x == -a.c.x && b.c.y == a.c.y else b.c.y == -a.c.y && b.c.x == a.c.x))
+        let uniform := i.sizes.all (fun (_, sz) => sz == (i.w, i.h))
+        if uniform && TreeLayout.isSymmetrical i.kids && mirrorless then
+          stats := ("layoutExact.symFlagTrueButNotMirrorSymmetric", 1) :: stats
         if !i.convex then stats := ("layoutExact.nonConvexOrdering", 1) :: stats
         if i.cfg.nodeSep == 0 then stats := ("layoutExact.nodeSep0", 1) :: stats
         if i.cfg.rankSep == 0 then stats := ("layoutExact.rankSep0", 1) :: stats
